@@ -84,6 +84,7 @@ type PredDecl struct {
 }
 
 type ContractSet struct {
+	LockInvs map[string][]*Clause // "Type.mutex" -> invariants over self
 	Preds  map[string]*PredDecl
 	Funcs  map[string]*FuncContract
 	Fields []*FieldDecl
@@ -105,7 +106,7 @@ var tagRe = regexp.MustCompile(`^([a-z_]+)(\[[A-Za-z0-9, ]+\])?\s*(.*)$`)
 var keywords = map[string]bool{"pred": true, "axiom": true, "field": true, "rely": true, "func": true, "mode": true,
 	"requires": true, "ensures": true, "panics": true, "modifies": true, "pure": true, "interferes": true, "may_panic": true,
 	"nocheck": true, "safety": true, "ghost": true, "loop": true, "invariant": true, "decreases": true, "at": true,
-	"replay": true, "inline": true, "lemma": true, "let": true, "nopanic": true, "vars": true}
+	"replay": true, "inline": true, "lockinv": true, "lemma": true, "let": true, "nopanic": true, "vars": true}
 
 func parseTags(s string) []string {
 	s = strings.Trim(s, "[]")
@@ -222,6 +223,20 @@ func LoadContractFile(path string, cs *ContractSet) error {
 				return err
 			}
 			cs.Axioms = append(cs.Axioms, c)
+		case "lockinv":
+			// lockinv Type.mutex label: expr(self)
+			i := strings.Index(rest, " ")
+			if i < 0 {
+				return fmt.Errorf("%s:%d: bad lockinv", path, l.no)
+			}
+			c, err := mkClause("lockinv", tags, strings.TrimSpace(rest[i+1:]), l.no)
+			if err != nil {
+				return err
+			}
+			if cs.LockInvs == nil {
+				cs.LockInvs = map[string][]*Clause{}
+			}
+			cs.LockInvs[rest[:i]] = append(cs.LockInvs[rest[:i]], c)
 		case "rely":
 			c, err := mkClause("rely", tags, rest, l.no)
 			if err != nil {
